@@ -1,11 +1,12 @@
 #!/venv/bin/python
 """Run every registered quick check against a seeded change.
 
-usage: tools/run_seeded.py <patch.diff> [--json out.json]
+usage: tools/run_seeded.py <patch.diff> [--json out.json] [--in-place]
 
-Applies the patch to /repo (git apply), runs all checks with evidence redirected
-to a scratch directory, and ALWAYS restores /repo (git checkout -- .).  Prints,
-per property, the exit code and the rules that fired.
+Applies the patch to a scratch copy of /repo's tracked loky/ tree (or, with --in-place, to /repo
+itself: git apply, and ALWAYS git checkout -- . afterwards), runs every registered quick check
+against it with the evidence redirected to a scratch directory.  Prints, per property, the exit
+code and the rules that fired.
 """
 import json, os, re, subprocess, sys, tempfile, shutil
 
@@ -16,20 +17,33 @@ VERIF = os.path.dirname(os.path.dirname(os.path.abspath(__file__)))
 def main():
     patch = os.path.abspath(sys.argv[1])
     out = sys.argv[sys.argv.index("--json") + 1] if "--json" in sys.argv else None
-    st = subprocess.run(["git", "-C", REPO, "status", "--porcelain", "--", "loky"], capture_output=True, text=True).stdout.strip()
-    if st:
-        print("refusing: /repo has local modifications under loky/:\n" + st)
-        return 2
+    # The patch is applied to a scratch export of /repo's HEAD + working tree (not to /repo itself) and the checks are
+    # pointed at it with LOKYSA_REPO: several evaluations, the self-validation and the registered checks can then run
+    # side by side.  `--in-place` applies it to /repo instead (git apply ... git checkout -- .), as a user would.
+    in_place = "--in-place" in sys.argv
     scratch = tempfile.mkdtemp(prefix="lokysa_seeded_")
     res = {}
     try:
+        if in_place:
+            st = subprocess.run(["git", "-C", REPO, "status", "--porcelain", "--", "loky"], capture_output=True, text=True).stdout.strip()
+            if st:
+                print("refusing: /repo has local modifications under loky/:\n" + st)
+                return 2
+            tree = REPO
+        else:
+            tree = os.path.join(scratch, "tree")
+            os.makedirs(tree)
+            subprocess.run(f"git -C {REPO} ls-files -z -- loky | (cd {REPO} && xargs -0 tar -cf - ) | tar -xf - -C {tree}", shell=True, check=True)
+            subprocess.run(["git", "init", "-q", tree], check=True)
         # a seed made against an older commit of /repo may need reduced context (the fix: commits moved lines)
         for extra in ([], ["-C1"]):
-            if subprocess.run(["git", "-C", REPO, "apply"] + extra + [patch], capture_output=True).returncode == 0:
+            if subprocess.run(["git", "-C", tree, "apply"] + extra + [patch], capture_output=True).returncode == 0:
                 break
         else:
-            raise SystemExit(f"patch does not apply to /repo: {patch}")
-        env = dict(os.environ, LOKYSA_EVIDENCE_DIR=scratch)
+            raise SystemExit(f"patch does not apply: {patch}")
+        ev = os.path.join(scratch, "evidence")
+        os.makedirs(ev)
+        env = dict(os.environ, LOKYSA_EVIDENCE_DIR=ev, LOKYSA_REPO=tree)
         man = json.load(open(os.path.join(VERIF, "MANIFEST.json")))
         for c in man["checks"]:
             p = subprocess.run(c["quick_cmd"], shell=True, cwd=VERIF, env=env, capture_output=True, text=True)
@@ -39,7 +53,8 @@ def main():
                                      "analysis_errors": errs[:3],
                                      "first": next((l.strip() for l in p.stdout.splitlines() if l.strip().startswith("rule=")), "")[:300]}
     finally:
-        subprocess.run(["git", "-C", REPO, "checkout", "--", "."], check=False)
+        if in_place:
+            subprocess.run(["git", "-C", REPO, "checkout", "--", "."], check=False)
         shutil.rmtree(scratch, ignore_errors=True)
     fired = {k: v for k, v in res.items() if v["exit"] != 0}
     for k, v in sorted(res.items()):
@@ -48,8 +63,9 @@ def main():
     print(f"fired: {sorted(fired)}" if fired else "NOT DETECTED by any check")
     if out:
         json.dump(res, open(out, "w"), indent=1)
-    st = subprocess.run(["git", "-C", REPO, "status", "--porcelain", "--", "loky"], capture_output=True, text=True).stdout.strip()
-    assert not st, "repo not restored!"
+    if in_place:
+        st = subprocess.run(["git", "-C", REPO, "status", "--porcelain", "--", "loky"], capture_output=True, text=True).stdout.strip()
+        assert not st, "repo not restored!"
     return 0
 
 
